@@ -318,20 +318,42 @@ example : Spec.Names.diskSource (Tape.str "x/noext") = ⟨Tape.str "NOEXT", [], 
 example : Spec.Names.diskSource (Tape.str "prog.v2.bin") = ⟨Tape.str "PROG.V2", Tape.str "BIN", Tape.str "BIN", Tape.str "prog.v2.bin"⟩ := by decide
 
 
-/-- **C02 (from the naming rule to the name printed and extracted)**: for every source argument whose stem (`Spec.Names.diskSource`:
-    the last path component up to its last dot, upper-cased) and stored extension are plain printable characters (0x21..0x7E) that fit
-    the 8 + 3 fields, the name under which the file is listed and extracted — `diskName`, read back from the eleven name bytes of the
-    catalog entry the tool writes — is `STEM.EXT`.  (The stored extension is what the kind table makes of the extension: `BAS` for
-    `bas,a`, the extension itself otherwise.) -/
+theorem upper_upper (s : Str) : upper (upper s) = upper s := by
+  unfold upper
+  rw [List.map_map]
+  congr 1
+  funext c
+  simp only [Function.comp]
+  unfold upperC; split <;> (try split) <;> omega
+
+theorem diskSource_upper (src : Str) :
+    upper (Spec.Names.diskSource src).name = (Spec.Names.diskSource src).name
+    ∧ upper (Spec.Names.diskSource src).ext = (Spec.Names.diskSource src).ext := by
+  unfold Spec.Names.diskSource
+  dsimp only
+  split
+  · exact ⟨upper_upper _, rfl⟩
+  · exact ⟨upper_upper _, upper_upper _⟩
+
+/-- **C02 (from the naming rule to the name printed and extracted)**: for every source argument whose stem and extension
+    (`Spec.Names.diskSource`: the last path component cut at its last dot, upper-cased, the option `,a` taken off) are plain printable
+    characters (0x21..0x7E) that fit the 8 + 3 fields, the name under which the file is listed and extracted — `diskName`, read back
+    from the eleven name bytes of the catalog entry the tool writes — is `STEM.EXT`.  The extension stored is the extension
+    itself: the kind table forces an extension for `BAS,A` only, and there it forces `BAS` (`dispatch_stored_ext`, checked against
+    the regenerated table; `dispatch_of_diskSource`). -/
 theorem plain_source_is_listed_as_name_dot_ext (src : Str)
     (hn : Plain (Spec.Names.diskSource src).name) (hn8 : (Spec.Names.diskSource src).name.length ≤ 8)
-    (he : Plain (dispatch (Spec.Names.diskSource src).name (Spec.Names.diskSource src).ext (Spec.Names.diskSource src).extWithOption).2.2)
-    (he3 : (dispatch (Spec.Names.diskSource src).name (Spec.Names.diskSource src).ext (Spec.Names.diskSource src).extWithOption).2.2.length ≤ 3) :
-    diskName src = upper (Spec.Names.diskSource src).name ++ [46]
-      ++ upper (dispatch (Spec.Names.diskSource src).name (Spec.Names.diskSource src).ext (Spec.Names.diskSource src).extWithOption).2.2 := by
+    (he : Plain (Spec.Names.diskSource src).ext) (he3 : (Spec.Names.diskSource src).ext.length ≤ 3) :
+    diskName src = (Spec.Names.diskSource src).name ++ [46] ++ (Spec.Names.diskSource src).ext := by
   unfold diskName
   rw [source_naming_rule src]
-  exact fileName_of_newRecord _ _ hn he hn8 he3 0 0 0 0
+  simp only
+  rw [dispatch_of_diskSource src, fileName_of_newRecord _ _ hn he hn8 he3 0 0 0 0, (diskSource_upper src).1, (diskSource_upper src).2]
+
+/-- the stored extension, for every name, extension and option: the extension, or `BAS` for `BAS,A` -/
+theorem stored_extension_rule (n e w : Str) :
+    (dispatch n e w).2.2 = e ∨ (w = Tape.str "BAS,A" ∧ (dispatch n e w).2.2 = Tape.str "BAS") :=
+  dispatch_stored_ext n e w
 
 example : diskName (Tape.str "my.dir/prog.v2.bas,a") = Tape.str "PROG.V2.BAS" := by decide +kernel
 
